@@ -64,7 +64,7 @@ namespace igris
 
         template <class T> T deserialize()
         {
-            T obj;
+            T obj{};
             deserialize(obj);
             return obj;
         }
